@@ -30,6 +30,23 @@ struct MatrixCallbacks : VCallbacks
     double pc = 1.0;      // poly: (x.y + pc)^2
     const Mat* Dm = nullptr; // D_MATRIX
     std::atomic<long> nk{0}, nd{0}, nf{0};
+    // The values handed to the callbacks are sample *labels* (what the iterators point at), not positions in the range.
+    // label -> column of X: col_of_label if given, else label - label_base. A label outside the map means the library passed
+    // something that is not a sample (e.g. a position) to a callback.
+    std::vector<int> col_of_label;
+    int label_base = 0;
+    std::atomic<long> bad_labels{0};
+    int col(int label)
+    {
+        int n = (int)X.cols();
+        int c = col_of_label.empty() ? label - label_base : ((label >= 0 && label < (int)col_of_label.size()) ? col_of_label[label] : -1);
+        if (c < 0 || c >= n)
+        {
+            bad_labels.fetch_add(1, std::memory_order_relaxed);
+            return 0;
+        }
+        return c;
+    }
     // optional per-call hook (delay injection for the race checks)
     std::function<void(int, int)> on_call;
 
@@ -73,19 +90,19 @@ struct MatrixCallbacks : VCallbacks
         nk.fetch_add(1, std::memory_order_relaxed);
         if (on_call)
             on_call(a, b);
-        return kval(a, b);
+        return kval(col(a), col(b));
     }
     double distance(int a, int b) override
     {
         nd.fetch_add(1, std::memory_order_relaxed);
         if (on_call)
             on_call(a, b);
-        return dval(a, b);
+        return dval(col(a), col(b));
     }
     void features(int a, tapkee::DenseVector& v) override
     {
         nf.fetch_add(1, std::memory_order_relaxed);
-        v = X.col(a);
+        v = X.col(col(a));
     }
     int dimension() override
     {
